@@ -208,7 +208,7 @@ func (cmd *diffCmd) Execute(ctx context.Context, f *flag.FlagSet, args ...interf
 	opts, err := newGenerateOptions(cmd.headerFile)
 	if err != nil {
 		log.Println(err)
-		return subcommands.ExitFailure
+		return errReturn
 	}
 
 	opts.Tags = cmd.tags
